@@ -134,9 +134,18 @@ thread_local! {
     static LAST_PANIC: RefCell<String> = RefCell::new(String::new());
 }
 
+thread_local! {
+    static GUARD_DEPTH: std::cell::Cell<u32> = const { std::cell::Cell::new(0) };
+}
+
 pub fn install_panic_capture() {
     std::panic::set_hook(Box::new(|info| {
         let msg = format!("{}", info);
+        if GUARD_DEPTH.with(|g| g.get()) == 0 {
+            // a panic nobody is going to catch: harness code (generator, driver) failed; say so on stderr so the
+            // orchestrator can report a harness error (inconclusive) with the reason
+            eprintln!("VRUN-HARNESS-PANIC {}", msg);
+        }
         LAST_PANIC.with(|p| *p.borrow_mut() = msg);
     }));
 }
@@ -147,7 +156,10 @@ pub fn last_panic() -> String {
 
 /// Run `f`, turning a Rust panic into Err(message).
 pub fn guarded<T>(f: impl FnOnce() -> T) -> Result<T, String> {
-    match catch_unwind(AssertUnwindSafe(f)) {
+    GUARD_DEPTH.with(|g| g.set(g.get() + 1));
+    let r = catch_unwind(AssertUnwindSafe(f));
+    GUARD_DEPTH.with(|g| g.set(g.get() - 1));
+    match r {
         Ok(v) => Ok(v),
         Err(_) => Err(last_panic()),
     }
